@@ -55,7 +55,7 @@ def validate_case(fa, cid, raw, datum, others, strict, tuples, kind):
 
 def run_c10(ctx, fa):
     from . import mcheck
-    mcheck.model_check(ctx, "MC_Binary", {"Depth": 1 if ctx.quick() else 2}, ["InvConformsEncodes", "InvStrictImplies", "InvNormConforms", "InvRoundTrip"], "conforms")
+    mcheck.model_check(ctx, "MC_Binary", {"Depth": 1 if ctx.quick() else 2}, ["InvConformsEncodes", "InvStrictImplies", "InvWModeOrder", "InvNormConforms", "InvRoundTrip"], "conforms")
     rnd = ctx.sub_rnd("c10")
     n = 900 if ctx.quick() else 12000
     cases = []
